@@ -125,6 +125,26 @@ func C09(c *core.Ctx) {
 					j.Dirs[k].Perf = [][]string{{}, {"CHF"}, {"USD", "CHF"}}[rng.Intn(3)]
 				}
 			}
+			// descriptions: multi-line ones, and same-day transactions whose descriptions share a prefix and
+			// differ in a line break / blank / punctuation (the order of a day's transactions depends on them)
+			if i%2 == 0 {
+				descs := []string{"Rent\nJanuary, paid late", "Rent 2020 deposit top-up", "Rent", "Rent\n\nnotes", "Rent!", "Rent\tx", "Ünïcödé – dash", "Rent\r\nCRLF"}
+				var extra []kj.Dir
+				for k := range j.Dirs {
+					if j.Dirs[k].K != "trx" || !strings.HasPrefix(j.Dirs[k].Desc, "t") {
+						continue
+					}
+					j.Dirs[k].Desc = descs[rng.Intn(len(descs))]
+					if rng.Intn(2) == 0 { // a sibling on the same day over the same accounts, with zero amounts
+						sib := kj.Dir{K: "trx", Z: j.Dirs[k].Z, Desc: descs[rng.Intn(len(descs))]}
+						for _, b := range j.Dirs[k].Bk {
+							sib.Bk = append(sib.Bk, kj.Booking{Cr: b.Cr, Dr: b.Dr, C: b.C, Q: 0})
+						}
+						extra = append(extra, sib)
+					}
+				}
+				j.Dirs = append(j.Dirs, extra...)
+			}
 		}
 		js[i] = j
 		cases[i] = j.Case(i+1, "print", nil)
